@@ -107,9 +107,28 @@ func readRecordHeaderV3(r io.ByteReader) (payloadSizeUncompressed uint64, payloa
 	return payloadSizeUncompressed, payloadSizeCompressed, recordNil == 1, nil
 }
 
+// readMinimalUvarint reads a uvarint and rejects encodings longer than the minimal one. The writer only ever emits
+// minimal encodings; a longer encoding of the same value (a continuation bit set on the last byte, followed by a zero
+// byte) would go unnoticed by the header checksum and silently shift everything behind it by one byte.
+func readMinimalUvarint(reader *checksumByteReader) (uint64, error) {
+	start := reader.Count()
+	v, err := binary.ReadUvarint(reader)
+	if err != nil {
+		return 0, err
+	}
+	minimalLen := 1
+	for x := v; x >= 0x80; x >>= 7 {
+		minimalLen++
+	}
+	if reader.Count()-start != minimalLen {
+		return 0, fmt.Errorf("%w: found a varint of %d bytes where %d are enough", HeaderChecksumMismatchErr, reader.Count()-start, minimalLen)
+	}
+	return v, nil
+}
+
 func readRecordHeaderV4(reader *checksumByteReader) (payloadSizeUncompressed uint64, payloadSizeCompressed uint64, recordNilBool bool, err error) {
 	reader.Reset()
-	magicNumber, err := binary.ReadUvarint(reader)
+	magicNumber, err := readMinimalUvarint(reader)
 	if err != nil {
 		return 0, 0, false, err
 	}
@@ -122,12 +141,12 @@ func readRecordHeaderV4(reader *checksumByteReader) (payloadSizeUncompressed uin
 		return 0, 0, false, err
 	}
 
-	payloadSizeUncompressed, err = binary.ReadUvarint(reader)
+	payloadSizeUncompressed, err = readMinimalUvarint(reader)
 	if err != nil {
 		return 0, 0, false, err
 	}
 
-	payloadSizeCompressed, err = binary.ReadUvarint(reader)
+	payloadSizeCompressed, err = readMinimalUvarint(reader)
 	if err != nil {
 		return 0, 0, false, err
 	}
@@ -137,7 +156,7 @@ func readRecordHeaderV4(reader *checksumByteReader) (payloadSizeUncompressed uin
 		return 0, 0, false, err
 	}
 
-	expectedChecksum, err := binary.ReadUvarint(reader)
+	expectedChecksum, err := readMinimalUvarint(reader)
 	if err != nil {
 		return 0, 0, false, err
 	}
